@@ -329,10 +329,10 @@ def _first_diff(a, b):
     if a == b:
         return None
     if t == "s":
-        if a[1].replace("\\", "") == b[1].replace("\\", ""):
+        both = a[1] + b[1]
+        if "\\" in both:
             return "string_backslash_escaping"
-        strip = lambda s: "".join(c for c in s if c not in "'\"\\")
-        if strip(a[1]) == strip(b[1]):
+        if "'" in both or '"' in both:
             return "string_quote_escaping"
         return "string_text"
     return "scalar_value_%s" % _tn(a)
